@@ -267,22 +267,23 @@ func shortIDs(ids []string) []string {
 }
 
 type c06sim struct {
-	r           *Run
-	src         *simredis.Server
-	si          *simredis.SourceImpl
-	stub        *outStub
-	cur         *history
-	prev        *history // previous history exposed as replid2 (nil if none)
-	snaps       map[string]snapInfo
-	nSnap       int
-	ri          *syncer.RedisInput
-	riDone      chan error
-	ch          syncer.Channel
-	viol        *Violation
-	hist        map[string]*history
-	epoch1      bool
-	spFailsLeft int
-	killsLeft   int
+	r            *Run
+	src          *simredis.Server
+	si           *simredis.SourceImpl
+	stub         *outStub
+	cur          *history
+	prev         *history // previous history exposed as replid2 (nil if none)
+	snaps        map[string]snapInfo
+	nSnap        int
+	ri           *syncer.RedisInput
+	riDone       chan error
+	ch           syncer.Channel
+	viol         *Violation
+	hist         map[string]*history
+	epoch1       bool
+	spFailsLeft  int
+	notReadyLeft int
+	killsLeft    int
 }
 
 type snapInfo struct {
@@ -394,6 +395,22 @@ func (c *c06sim) step() {
 		acts = append(acts, act{"source connection lost", 1, func() {
 			c.killsLeft--
 			r.W.Fault("source_conn_lost_again")
+			for _, ss := range c.src.Sessions {
+				if !ss.Dead {
+					c.src.KillSession(ss, 0)
+				}
+			}
+		}})
+	}
+	if c.epoch1 && c.notReadyLeft > 0 {
+		// the source connection is lost and the source is not ready for a while (a replica that has lost its own master,
+		// a node still loading): it refuses PSYNC with an error and keeps the connection; asked again later it grants
+		// what it would have granted - the request must be the same one
+		acts = append(acts, act{"source connection lost, source not ready", 1, func() {
+			c.notReadyLeft--
+			r.W.Fault("source_not_ready")
+			c.si.NotReady = 1 + s.Choose("notready", 2)
+			c.si.NotReadyText = []string{"NOMASTERLINK Can't SYNC while not connected with my master", "LOADING Redis is loading the dataset in memory"}[s.Choose("notreadykind", 2)]
 			for _, ss := range c.src.Sessions {
 				if !ss.Dead {
 					c.src.KillSession(ss, 0)
@@ -638,6 +655,7 @@ func runC06(r *Run, stratum string) *Violation {
 	c.epoch1 = true
 	c.killsLeft = g.Choose("epoch1kills", 3)
 	c.spFailsLeft = g.Choose("epoch1spfails", 2)
+	c.notReadyLeft = g.Choose("epoch1notready", 2)
 	r.Sample = fmt.Sprintf("%s: position before %s@%d, now %s@%d, source id=%s id2=%s second=%d backlog=(%d,%d]", desc, shortID(positionBefore.RunId), positionBefore.Offset,
 		shortID(c.stub.stored.RunId), c.stub.stored.Offset, shortID(c.src.Repl.ID), shortID(c.src.Repl.ID2), c.src.Repl.SecondOffset, c.src.Repl.BacklogStart, c.src.Repl.End())
 	r.Logf("TRANSITION %s", r.Sample)
@@ -783,7 +801,7 @@ func (c *c06sim) check(when string) {
 		}
 		full := false
 		for _, p := range c.si.Psyncs[at.psyncAt:hi] {
-			if !p.Continue {
+			if !p.Continue && !p.Refused {
 				full = true
 			}
 		}
